@@ -188,7 +188,7 @@ def _pure_predicate(expr):
         return False
     for x in ast.walk(expr):
         if isinstance(x, ast.Call):
-            if not (isinstance(x.func, ast.Name) and x.func.id in ("isinf", "isinstance", "float")):
+            if not (isinstance(x.func, ast.Name) and x.func.id in ("isinf", "isinstance", "float", "len")):
                 return False
         if isinstance(x, (ast.Lambda, ast.ListComp, ast.GeneratorExp, ast.DictComp, ast.SetComp, ast.IfExp, ast.NamedExpr, ast.Await, ast.Yield)):
             return False
@@ -376,6 +376,8 @@ class Walker:
         """canonical string if expr is alias-like (access path, constant, inf, inlined call result) else None"""
         if isinstance(expr, ast.UnaryOp) and isinstance(expr.op, ast.USub) and isinstance(expr.operand, ast.Constant) and isinstance(expr.operand.value, (int, float)):
             return "-%r" % expr.operand.value          # a negative numeric literal
+        if isinstance(expr, ast.UnaryOp) and isinstance(expr.op, ast.UAdd) and isinstance(expr.operand, ast.Constant) and isinstance(expr.operand.value, (int, float)):
+            return "%r" % expr.operand.value           # `+1`
         if isinstance(expr, ALIAS_TYPES) or is_inf_literal(expr):
             if isinstance(expr, ast.Subscript) and not isinstance(expr.slice, (ast.Constant, ast.Name, ast.Attribute, ast.UnaryOp, ast.BinOp, ast.Subscript)):
                 return None
@@ -675,6 +677,10 @@ class Walker:
             for s in states:
                 nxt += self.call(call, s, frame, incomp)
             states = nxt
+        # `(x := e)` inside an expression the normal forms left in place (a loop test): x is bound to e once the expression has been evaluated
+        if any(isinstance(x, ast.NamedExpr) for x in ast.walk(expr)):
+            for ne in _named_exprs(expr):
+                states = [self.assign(s, ne.target, ne.value, ne, frame) for s in states]
         return states
 
     def resolve_self_call(self, call, frame, env=None):
@@ -947,6 +953,20 @@ class Walker:
                     out.append(s)
             cur = self.dedupe(cur)
         return self.dedupe(out)
+
+
+def _named_exprs(expr):
+    """assignment expressions evaluated by expr itself (not those inside lambdas or comprehensions, which have their own scope or evaluation time)"""
+    out = []
+    def rec(n):
+        if isinstance(n, (ast.Lambda, ast.ListComp, ast.GeneratorExp, ast.DictComp, ast.SetComp)):
+            return
+        for c in ast.iter_child_nodes(n):
+            rec(c)
+        if isinstance(n, ast.NamedExpr):
+            out.append(n)
+    rec(expr)
+    return out
 
 
 def show_path(state, maxlen=12):
